@@ -319,21 +319,23 @@ let () =
       let data = if hex = "-" then [] else bytes_of_hex hex in
       let ints s = if s = "-" then [] else List.map (fun x -> nat_of_int (int_of_string x)) (String.split_on_char ',' s) in
       let p0 = init data (buffered = "1") (big = "1") (ints fills) (ints reads) in
-      let pops = List.map (fun o -> match colon o with
-        | ["b"; n] -> PBits (n_of_string n)
-        | ["r"; k] -> PRaw (nat_of_int (int_of_string k))
-        | ["p"] -> PPads
-        | _ -> PFlush) ops in
-      let obs = prun p0 pops in
+      let xops = List.map (fun o -> match colon o with
+        | ["b"; n] -> XOp (PBits (n_of_string n))
+        | ["r"; k] -> XOp (PRaw (nat_of_int (int_of_string k)))
+        | ["p"] -> XOp PPads
+        | ["u"; n] -> XPull (n_of_string n)
+        | _ -> XOp PFlush) ops in
+      let obs = xrun p0 xops in
       (* the harness stops at the first panic *)
       let rec upto acc = function
         | [] -> List.rev acc
-        | (OBits (None, br)) :: _ -> List.rev (Printf.sprintf "b:panic:%s" (z_to_string br) :: acc)
-        | (OBits (Some v, br)) :: r -> upto (Printf.sprintf "b:%s:%s" (n_to_string v) (z_to_string br) :: acc) r
-        | (OPads (v, br)) :: r -> upto (Printf.sprintf "p:%s:%s" (n_to_string v) (z_to_string br) :: acc) r
-        | (ORaw (bs, e, br)) :: r ->
+        | XObs (OBits (None, br)) :: _ -> List.rev (Printf.sprintf "b:panic:%s" (z_to_string br) :: acc)
+        | XObs (OBits (Some v, br)) :: r -> upto (Printf.sprintf "b:%s:%s" (n_to_string v) (z_to_string br) :: acc) r
+        | XObs (OPads (v, br)) :: r -> upto (Printf.sprintf "p:%s:%s" (n_to_string v) (z_to_string br) :: acc) r
+        | XObs (ORaw (bs, e, br)) :: r ->
           upto (Printf.sprintf "r:%s:%s:%s" (if bs = [] then "-" else hex_of_bytes bs) (n_to_string e) (z_to_string br) :: acc) r
-        | (OFlush (off, pos)) :: r -> upto (Printf.sprintf "f:%s:%d" (z_to_string off) (int_of_nat pos) :: acc) r in
+        | XObs (OFlush (off, pos)) :: r -> upto (Printf.sprintf "f:%s:%d" (z_to_string off) (int_of_nat pos) :: acc) r
+        | XPulled (e, br) :: r -> upto (Printf.sprintf "u:%d:%s" (if e then 1 else 0) (z_to_string br) :: acc) r in
       String.concat "," (upto [] obs)
     | _ -> "badargs")
 
